@@ -95,11 +95,19 @@ type gatedConn struct {
 	nwrites  int
 	raw      []byte
 	unarmedW int // Writes that entered without an armed deadline (reported when a write timeout is configured)
+	// perWrite: every Write must be preceded by its own SetWriteDeadline (a deadline left over from an earlier
+	// Write does not count): armSeq counts the arming calls, usedSeq is the count the latest Write saw
+	perWrite bool
+	armSeq   int
+	usedSeq  int
 }
 
 func (g *gatedConn) SetWriteDeadline(t time.Time) error {
 	g.mu.Lock()
 	g.armed = !t.IsZero()
+	if g.armed {
+		g.armSeq++
+	}
 	g.mu.Unlock()
 	return g.Conn.SetWriteDeadline(t)
 }
@@ -129,6 +137,10 @@ func (g *gatedConn) Write(p []byte) (int, error) {
 	}
 	w := &gwrite{idx: g.nwrites, p: p, armed: g.armed, gid: curGID(), end: make(chan error)}
 	g.nwrites++
+	if g.perWrite && g.armSeq == g.usedSeq {
+		w.armed = false
+	}
+	g.usedSeq = g.armSeq
 	if !w.armed {
 		g.unarmedW++
 	}
@@ -296,6 +308,20 @@ func (gi *ginfo) parked() bool {
 	if gi.state == "chan receive" && len(gi.funcs) > 0 && strings.Contains(gi.funcs[0], "gocql.(*Conn).exec") {
 		return false
 	}
+	// a goroutine that allocates during a GC cycle can be made to help ("GC assist wait" / "GC assist marking"):
+	// it is runnable work of the program, not a parked GC worker (seen with the 1 MiB frames)
+	if strings.HasPrefix(gi.state, "GC assist") {
+		return false
+	}
+	if strings.HasPrefix(gi.state, "GC ") && (gi.has("gocql.") || gi.has("main.") || gi.has("verifharness/")) {
+		return false // any other GC-related wait of a goroutine of the program (GC workers have runtime frames only)
+	}
+	// "semacquire" is also the state of a goroutine whose allocation starts a GC cycle and waits for the world
+	// semaphore that this very snapshot holds (runtime frames are elided: its top frame is the allocating
+	// function). Only a semaphore wait entered through package sync / internal/poll is a parked goroutine.
+	if strings.HasPrefix(gi.state, "semacquire") {
+		return len(gi.funcs) > 0 && (strings.HasPrefix(gi.funcs[0], "sync.") || strings.HasPrefix(gi.funcs[0], "internal/poll."))
+	}
 	for _, p := range parkedStates {
 		if strings.HasPrefix(gi.state, p) {
 			return true
@@ -308,12 +334,18 @@ func (gi *ginfo) parked() bool {
 	return false
 }
 
+var qdebug = os.Getenv("C07_QDEBUG") != ""
+
 var errNotQuiescent = errors.New("not quiescent")
 
-// quiesce waits until every goroutine but the caller is parked and returns that snapshot. The 30 s bound is
+// quiesce waits until every goroutine but the caller is parked and returns that snapshot. The bound (2500 snapshots, >= 2 minutes) is
 // a watchdog only (the dump is written to /tmp/c07_sched_hang.txt).
 func quiesce() ([]ginfo, error) {
-	deadline := time.Now().Add(30 * time.Second)
+	// The watchdog counts snapshots, not wall-clock time: after the ramp every snapshot is preceded by a 50 ms
+	// pause, so 2500 of them are two minutes in which the program was given the processor 2500 times. A stall of
+	// the whole machine (the sandbox is a virtual machine: both of two concurrent checks once lost ~30 s at the
+	// same moment) is then one long pause, not an expired deadline.
+	start := time.Now()
 	for spin := 0; ; spin++ {
 		runtime.Gosched()
 		self, gs, dump := snapshot()
@@ -327,12 +359,33 @@ func quiesce() ([]ginfo, error) {
 		if ok {
 			return gs, nil
 		}
-		if time.Now().After(deadline) {
+		if spin >= 2500 {
 			os.WriteFile("/tmp/c07_sched_hang.txt", []byte(dump), 0o644)
 			return gs, errNotQuiescent
 		}
-		if spin > 20 {
-			time.Sleep(20 * time.Microsecond)
+		if qdebug && spin > 200 && spin%200 == 0 {
+			for i := range gs {
+				if gs[i].id != self && !gs[i].parked() {
+					top := "?"
+					if len(gs[i].funcs) > 0 {
+						top = gs[i].funcs[0]
+					}
+					fmt.Fprintf(os.Stderr, "qdebug spin=%d t=%v g=%d [%s] %s\n", spin, time.Since(start), gs[i].id, gs[i].state, top)
+				}
+			}
+		}
+		// Every snapshot stops the world. A goroutine that is runnable needs a thread to be woken for it after the
+		// world restarts; when the next snapshot follows too quickly the thread finds the world stopping again and
+		// the goroutine never runs (seen as 30 s of "runnable" with 1 MiB frames). So the pause between snapshots
+		// grows while the program is not quiescent (20 us ... 50 ms; on a machine whose processors are
+		// oversubscribed a woken thread may have to wait several milliseconds for a processor); pauses do not
+		// decide anything, they only leave the processor to the program.
+		if spin > 8 {
+			d := 50 * time.Millisecond
+			if k := uint((spin - 8) / 6); k < 12 {
+				d = 20 * time.Microsecond << k // 20 us, 40 us, ... 41 ms
+			}
+			time.Sleep(d)
 		}
 	}
 }
